@@ -493,6 +493,10 @@ class FDD_mpe_havoc(_MpeHavoc):
 
 class _Handover(Contract):
     props = ("C16",)
+    bounded_driver = {"driver": "c16_handover", "inputs": {}}
+
+    def witness(self, o):
+        return dict(self.bounded_driver)
     generic_replay = False
     callable_modular = False
     compare_state = False
